@@ -168,6 +168,10 @@ class SeriesOps:
         return g
 
     def _series_apply(self, s: Ser, fn: Any, node, extra=None) -> Ser:
+        if isinstance(fn, Obj) and "__partial__" in fn.attrs and isinstance(fn.attrs["__partial__"][0], FuncRef) and not fn.attrs["__partial__"][1]:
+            # s.apply(partial(f, **k)) == s.apply(f, **k)
+            f0, _a, k0 = fn.attrs["__partial__"]
+            return self._series_apply(s, f0, node, {**k0, **dict(extra or {})})
         if isinstance(fn, FuncRef):
             if isinstance(fn.node, ast.Lambda) or True:
                 # evaluate the function body symbolically with the element bound to the column term
@@ -436,6 +440,17 @@ class SeriesOps:
             ser = next((x for x in pos if isinstance(x, Ser)), None)
             r = T.ite(M.as_ser_term(pos[0]), M.as_ser_term(pos[1]), M.as_ser_term(pos[2])) if len(pos) == 3 else T.opaque("np.where/1")
             return ser.with_term(r) if ser is not None else r
+        if name in ("np.logical_and", "np.logical_or") and len(pos) == 2 and not kw:
+            return M.binop("BitAnd" if short == "logical_and" else "BitOr", pos[0], pos[1], node)
+        if name == "np.logical_not" and len(pos) == 1 and not kw:
+            t = T.not_(M.as_ser_term(a0))
+            return a0.with_term(t) if isinstance(a0, Ser) else t
+        if name == "np.isin" and len(pos) == 2 and isinstance(a0, Ser) and not kw:
+            return self.series_method(a0, "isin", [pos[1]], {}, node)
+        if name in ("functools.partial", "partial") and pos and isinstance(a0, (FuncRef, Obj, ClassRef)):
+            return Obj(f"partial#{I.new_id()}", attrs={"__partial__": (a0, list(pos[1:]), dict(kw))})
+        if name in ("operator.itemgetter", "itemgetter") and len(pos) == 1 and not kw:
+            return Obj(f"itemgetter#{I.new_id()}", attrs={"__itemgetter__": a0})
         if name == "np.select" and len(pos) >= 2 and isinstance(pos[0], list) and isinstance(pos[1], list) and len(pos[0]) == len(pos[1]):
             default = kw.get("default", pos[2] if len(pos) > 2 else 0)
             ser = next((x for x in pos[0] + pos[1] if isinstance(x, Ser)), None)
